@@ -19,7 +19,7 @@ theorem C07_exact (pop : List Prov) (hid : (pop.map (·.id)).Nodup) (hnm : (pop.
     (hk : (∃ t, s.kind = .ptr t) ∨ (∃ i, s.kind = .iface i))
     (hq : find a0 kQualifier = none) (hm : p ∈ pop) (hn : p.name = nm) :
     resolveOne pop s = some { cands := [p.id], slice := false, required := isRequired a0,
-                              incompat := if assignable s.kind p then [] else [p.id] } :=
+                              incompat := if injAssignable s.kind p then [] else [p.id] } :=
   resolveOne_named pop hid hnm s nm a0 p hf hp hv hk hq hm hn
 
 /-- ABSENT: nobody is registered under `nm` (any field kind): a required point is a start-up ERROR (`none`, not a panic:
@@ -92,7 +92,7 @@ example : pB ∈ pop := by simp [pop]
 example : (resolveOne pop namedB).map (fun pt => (pt.cands, pt.incompat)) = some ([1], []) := by decide
 example : (resolveOne pop' namedB).map (fun pt => (pt.cands, pt.incompat)) = some ([1], []) := by decide
 -- `*T1` by name "b": found, but not assignable → marked for Inject
-example : assignable namedBwrong.kind pB = false := by decide
+example : assignable namedBwrong.kind pB = false ∧ injAssignable namedBwrong.kind pB = false := by decide
 example : (resolveOne pop namedBwrong).map (fun pt => (pt.cands, pt.incompat)) = some ([1], [1]) := by decide
 -- nobody is called "zz": required → error, optional → empty
 example : (∀ p ∈ pop, p.name ≠ ofString "zz") := by decide
